@@ -37,8 +37,10 @@ META = {
                   "with serial, same-seed reproducibility and schedule-independence of the samples are checked on every batch.",
     "level_note": "Equality across different worker counts or back ends is not demanded (the statement fixes seed, backend and worker "
                   "count); it is only recorded. The JAX PRNG-key path and jitted execution are not driven. Process pools spawn workers that "
-                  "import pennylane (~6 s each when idle), so the harness subclasses of the two process back ends keep one pool per (backend, size) alive across executions (quick: one pool per shard, 4 per run); the unmodified process classes (fresh pool per execute) run in the thorough tier only; derivative entry "
-                  "points use the thread pool in the quick tier.",
+                  "import pennylane (~6 s each when idle), so the harness subclasses of the two process back ends keep one pool per (backend, size) alive across executions (quick: one pool per shard, 4 per run); the unmodified process classes (fresh pool per execute) run in the thorough tier only; derivative batches "
+                  "use consecutive integer wires and single-parameter gates only (the device-level adjoint entry points expect "
+                  "preprocessed tapes: map_to_standard_wires() forgets trainable_params when it relabels, adjoint_vjp skips multi-parameter "
+                  "gates) - both unrelated to parallelism.",
     "design_ref": "7/C31",
     "shards": {"quick": 4, "thorough": 16},
     "budget_s": {"quick": 200, "thorough": 480},
